@@ -13,7 +13,9 @@ sed -i "s#/tmp/wt_$id/_b#/repo/_build#g; s#/tmp/wt_$id#/repo#g" $d/demo.sh 2>/de
 if ! git -C /repo diff --quiet; then echo "/repo has uncommitted changes"; exit 2; fi
 sc=/tmp/confirm_$id; rm -rf $sc; mkdir -p $sc; cp $d/* $sc/
 run_demo() {
-  if [ -f $sc/demo.cpp ]; then
+  if [ -f $sc/demo_mpi.cpp ]; then
+    (cd $sc && mpic++ -std=c++14 -O1 -I/repo/include -I/repo/_build/include demo_mpi.cpp -ltbb -lboost_timer -lboost_mpi -lboost_serialization -lpthread -o demo 2>&1 | tail -3 && ${DEMO_RUN:-timeout 300 mpiexec --allow-run-as-root --oversubscribe -n 2 ./demo} 2>&1 | tail -4; echo "demo exit=${PIPESTATUS[0]}")
+  elif [ -f $sc/demo.cpp ]; then
     cxx=g++; libs="-ltbb -lboost_timer"
     grep -q "mpi" $sc/demo.cpp && { cxx=mpic++; libs="$libs -lboost_mpi -lboost_serialization"; }
     (cd $sc && $cxx -std=c++14 -O1 -I/repo/include -I/repo/_build/include demo.cpp $libs -lpthread -o demo 2>&1 | tail -3 && ${DEMO_RUN:-./demo} 2>&1 | tail -4; echo "demo exit=${PIPESTATUS[0]}")
